@@ -5,6 +5,14 @@
 (*   [t |-> "H", l |-> 1..6]      heading of level l                          *)
 (*   [t |-> "L", p |-> marker]    list line, marker = sequence over {"*","#"} *)
 (*   [t |-> "R"]  horizontal rule   [t |-> "P"]  paragraph   [t |-> "B"] blank *)
+(*   [t |-> "I"]  indented line (a blank, then the word): a preformatted     *)
+(*                block -- the one balanced filler block that is still OPEN  *)
+(*                when the next line arrives (it ends at the first line that *)
+(*                is not indented, whatever that line is)                    *)
+(*   [t |-> "O", c |-> ..]  a paragraph line that opens a construct and does  *)
+(*                not close it (UNBALANCED: outside the property; RefRelations*)
+(*                treats it like a paragraph, the universes that contain it   *)
+(*                take their expectation from the machine -- DRIFT only)      *)
 (* Line i carries the unique marker word W(i).                                *)
 (*                                                                            *)
 (* RefRelations(doc) states, without any stack, what the property demands:    *)
@@ -18,6 +26,16 @@
 (*   lst[i]   L: first line of the list this item belongs to (equal markers   *)
 (*            continue the list, anything else starts a new one)              *)
 (*   counts   exactly one section node per heading, one item per list line    *)
+(*   par[i]   the kind of the PARENT NODE of the structure line i creates:    *)
+(*            H: of its section node -- the node of the parent section, or    *)
+(*            ROOT when there is none (sections are nested in sections and in *)
+(*            nothing else: every block that was still open when the heading  *)
+(*            line arrived has ended);  L: of the list the item belongs to -- *)
+(*            the parent item, else the containing section / ROOT;  I: of the *)
+(*            preformatted block -- the containing section / ROOT;  R: of the *)
+(*            rule node -- the section that is still open after the rule /    *)
+(*            ROOT (rule nodes carry no word: the k-th rule node of the tree  *)
+(*            in document order belongs to the k-th rule line)                *)
 EXTENDS Naturals, Sequences, FiniteSets
 
 IsH(doc, i) == doc[i].t = "H"
@@ -60,17 +78,28 @@ RECURSIVE ListHead(_, _)
 ListHead(doc, k) == IF PrevSibling(doc, k) = 0 THEN k ELSE ListHead(doc, PrevSibling(doc, k))
 
 NoOwn == [k |-> "-", w |-> "-", m |-> <<>>]
+IsI(doc, i) == doc[i].t = "I"
+Worded == {"H", "L", "P", "I", "O"}      \* line types that carry a marker word
+\* the node of section j; 0 = no section: the root
+SecKind(doc, j) == IF j = 0 THEN "ROOT" ELSE LevelKind(doc[j].l)
 RefRelations(doc) ==
   LET n == Len(doc) IN
   [ own  |-> [i \in 1..n |->
                 IF IsH(doc, i) THEN [k |-> LevelKind(doc[i].l), w |-> "largs", m |-> <<>>]
                 ELSE IF IsL(doc, i) THEN [k |-> "LIST_ITEM", w |-> "children", m |-> doc[i].p]
+                ELSE IF IsI(doc, i) THEN [k |-> "PREFORMATTED", w |-> "children", m |-> <<>>]
                 ELSE NoOwn],
     sec  |-> [i \in 1..n |->
                 IF IsH(doc, i) THEN SecParent(doc, i)
-                ELSE IF doc[i].t \in {"L", "P"} THEN Container(doc, i) ELSE 0],
+                ELSE IF doc[i].t \in {"L", "P", "I", "O"} THEN Container(doc, i) ELSE 0],
     item |-> [i \in 1..n |-> IF IsL(doc, i) THEN ItemParent(doc, i) ELSE 0],
     lst  |-> [i \in 1..n |-> IF IsL(doc, i) THEN ListHead(doc, i) ELSE 0],
+    par  |-> [i \in 1..n |->
+                IF IsH(doc, i) THEN SecKind(doc, SecParent(doc, i))
+                ELSE IF IsL(doc, i) THEN (IF ItemParent(doc, i) # 0 THEN "LIST_ITEM" ELSE SecKind(doc, Container(doc, i)))
+                ELSE IF IsI(doc, i) THEN SecKind(doc, Container(doc, i))
+                ELSE IF doc[i].t = "R" THEN SecKind(doc, Container(doc, i + 1))
+                ELSE "-"],
     nsec |-> Cardinality({ i \in 1..n : IsH(doc, i) }),
     nitem |-> Cardinality({ i \in 1..n : IsL(doc, i) }),
     nlist |-> Cardinality({ i \in 1..n : IsL(doc, i) /\ ListHead(doc, i) = i }) ]
@@ -135,17 +164,25 @@ Nearest(chain, upto, kinds) ==
 
 \* chs[i] = the chain of line i's marker word (<<>> if the word does not occur exactly once).
 \* (Chains are passed as an argument so that TLC evaluates the tree walks once.)
-RelationsOfChains(doc, chs, nsec, nitem, nlist) ==
+\* the kinds of the parents of the rule nodes, in document order (title arguments before the content)
+RECURSIVE RuleParN(_), RuleParL(_, _, _), RuleParA(_, _)
+RuleParL(lst, pk, i) ==
+  IF i > Len(lst) THEN <<>>
+  ELSE (IF IsStrC(lst[i]) THEN <<>> ELSE IF lst[i].kind = "HLINE" THEN <<pk>> ELSE RuleParN(lst[i])) \o RuleParL(lst, pk, i + 1)
+RuleParA(n, k) == IF k > Len(n.largs) THEN <<>> ELSE RuleParL(n.largs[k], n.kind, 1) \o RuleParA(n, k + 1)
+RuleParN(n) == RuleParA(n, 1) \o RuleParL(n.children, n.kind, 1)
+
+RelationsOfChains(doc, chs, nsec, nitem, nlist, rulepar) ==
   LET n == Len(doc)
       one(i) == chs[i] # <<>>
       ownp(i) == IF one(i) THEN chs[i][Len(chs[i])].p ELSE <<98>>
       upp(i) == IF one(i) /\ Len(chs[i]) >= 2 THEN chs[i][Len(chs[i]) - 1].p ELSE <<99>>
       \* the line of type t whose own node sits at this path (0 = none)
       LineOfPath(p, t) == MaxOr0({ j \in 1..n : doc[j].t = t /\ ownp(j) = p })
-      worded(i) == doc[i].t \in {"H", "L", "P"}
+      worded(i) == doc[i].t \in Worded
       own(i) == IF ~one(i) THEN [k |-> "BAD", w |-> "-", m |-> <<>>]
                 ELSE LET e == chs[i][Len(chs[i])] IN
-                     IF doc[i].t = "P" THEN NoOwn ELSE [k |-> e.kind, w |-> e.w, m |-> e.sarg]
+                     IF doc[i].t \in {"P", "O"} THEN NoOwn ELSE [k |-> e.kind, w |-> e.w, m |-> e.sarg]
       sec(i) == IF ~one(i) THEN 0
                 ELSE LET c == chs[i]
                          upto == IF doc[i].t = "H" THEN Len(c) - 1 ELSE Len(c)
@@ -157,16 +194,25 @@ RelationsOfChains(doc, chs, nsec, nitem, nlist) ==
                       IN IF x = 0 THEN 0 ELSE LineOfPath(c[x].p, "L")
       lst(i) == IF ~one(i) \/ doc[i].t # "L" THEN 0
                 ELSE Min({ j \in 1..n : doc[j].t = "L" /\ upp(j) = upp(i) })
+      \* kind of the k-th enclosing node above the one that holds the word ("NONE": the chain is too short)
+      anc(i, k) == IF one(i) /\ Len(chs[i]) > k THEN chs[i][Len(chs[i]) - k].kind ELSE "NONE"
+      par(i) == CASE doc[i].t = "H" -> anc(i, 1)      \* word in the title of the section node: its parent
+                  [] doc[i].t = "L" -> anc(i, 2)      \* word in the item: item, list, the list's parent
+                  [] doc[i].t = "I" -> anc(i, 1)      \* word in the preformatted block: its parent
+                  [] doc[i].t = "R" -> (IF Len(rulepar) = Cardinality({ j \in 1..n : doc[j].t = "R" })
+                                        THEN rulepar[Cardinality({ j \in 1..i : doc[j].t = "R" })] ELSE "NONE")
+                  [] OTHER -> "-"
   IN [ own |-> [i \in 1..n |-> IF worded(i) THEN own(i) ELSE NoOwn],
        sec |-> [i \in 1..n |-> IF worded(i) THEN sec(i) ELSE 0],
        item |-> [i \in 1..n |-> item(i)],
        lst |-> [i \in 1..n |-> lst(i)],
+       par |-> [i \in 1..n |-> par(i)],
        nsec |-> nsec, nitem |-> nitem, nlist |-> nlist ]
 
 \* (bound variables of a set constructor are evaluated eagerly by TLC: the tree is walked once)
 TreeRelations(tree, doc, W(_)) ==
-  CHOOSE r \in { RelationsOfChains(doc, c, CountKinds(t, LevelKinds), CountKinds(t, {"LIST_ITEM"}), CountKinds(t, {"LIST"})) :
-                   c \in { [i \in 1..Len(doc) |-> IF doc[i].t \in {"H", "L", "P"} /\ CntN(t, W(i)) = 1
+  CHOOSE r \in { RelationsOfChains(doc, c, CountKinds(t, LevelKinds), CountKinds(t, {"LIST_ITEM"}), CountKinds(t, {"LIST"}), RuleParN(t)) :
+                   c \in { [i \in 1..Len(doc) |-> IF doc[i].t \in Worded /\ CntN(t, W(i)) = 1
                                                   THEN FindN(t, <<>>, W(i)) ELSE <<>>] : t \in {tree} },
                    t \in {tree} } : TRUE
 =============================================================================
